@@ -93,7 +93,7 @@ def point_token(cv, m, sys, rng, force=None):
 
 def seed_token(kind, seed, cv, sys, rng, force=None, ell=None):
     """c<seed> curve point outside the subgroup, r<seed> = [r]c (cofactor part), h<seed> = [h2]c (member),
-    o<ell>,<seed> = [(h2 r)/ell]c (order ell or identity)"""
+    o<ell>,<seed> = the ell-primary part of c (a point of small order ell^j, or the identity)"""
     if kind == "o":
         return "o%x,%x%s" % (ell, seed, rep_suffix(cv, sys, rng, force))
     return "%s%x%s" % (kind, seed, rep_suffix(cv, sys, rng, force))
